@@ -60,3 +60,21 @@ pub proof fn thm_C03_stored_coefficients(s: CubicSplineStrategy, x: Seq<T>, y: S
     assert(coef_from_system(s.a.rows@[n - 2][j], s.b.rows@[n - 2][j], x, y, sd, n, nl, n - 2, j));
     assert(coef_from_system(s.a.rows@[n - 3][j], s.b.rows@[n - 3][j], x, y, sd, n, nl, n - 3, j));
 }
+
+/// C16, end of the chain: the strategy built from samples of a cubic (NotAKnot, n >= 4: any cubic; Natural: second derivative
+/// zero at both ends, i.e. straight lines; Clamped: zero slope at both ends) evaluates to that cubic at EVERY query of EVERY piece
+pub proof fn thm_C16_spline_reproduces_cubic(s: CubicSplineStrategy, x: Seq<T>, y: Seq<Seq<T>>, sd: SingleBoundary<T>, j: int,
+                                             c0: real, c1: real, c2: real, c3: real, i: int, q: real)
+    requires y.len() >= 3, x.len() == y.len(), axis_incr(x), spline_built(s, x, y, sd), 0 <= j < y[0].len(), 0 <= i < y.len() - 1,
+             !(y.len() == 3 && eff_tag(sd) == 0),
+             samples_cubic(x, y, j, c0, c1, c2, c3), end_matches(sd, x[0]@, c1, c2, c3), end_matches(sd, x[y.len() - 1]@, c1, c2, c3)
+    ensures herm(x[i]@, x[i + 1]@, y[i][j]@, y[i + 1][j]@, s.a.rows@[i][j]@, s.b.rows@[i][j]@, q) == pc(c0, c1, c2, c3, q)
+{
+    let n = y.len() as int; let nl = y[0].len() as int;
+    thm_C16_slopes_of_a_cubic(x, y, sd, sd, n, nl, j, c0, c1, c2, c3, i);
+    thm_C16_slopes_of_a_cubic(x, y, sd, sd, n, nl, j, c0, c1, c2, c3, i + 1);
+    assert(coef_from_system(s.a.rows@[i][j], s.b.rows@[i][j], x, y, sd, n, nl, i, j));
+    assert(hx(x, i) > 0real);
+    assert(y[i][j]@ == pc(c0, c1, c2, c3, x[i]@) && y[i + 1][j]@ == pc(c0, c1, c2, c3, x[i + 1]@));
+    L_cubic_hermite_exact(x[i]@, x[i + 1]@, c0, c1, c2, c3, q);
+}
